@@ -60,6 +60,9 @@ def parse(rel: str) -> ast.Module:
             tree = ast.parse(read(rel), filename=rel)
         except SyntaxError as e:  # pragma: no cover
             raise AnalysisError(f"{rel} does not parse: {e}") from e
+        from . import alpha
+
+        alpha.restore(tree, rel)
         for node in ast.walk(tree):
             for ch in ast.iter_child_nodes(node):
                 ch._parent = node  # type: ignore[attr-defined]
@@ -338,6 +341,10 @@ class Report:
             "known_findings_reported": n_known,
             "notes": self.notes,
         }
+        from . import alpha
+
+        if alpha.restored:
+            cov["locals_renamed_back"] = alpha.restored[:40]
         cov.update(self.extra)
         if self.level == "proof":
             cov["obligations"] = self.obligations
